@@ -8,6 +8,7 @@ import (
 	"strings"
 
 	"github.com/vapourismo/knx-go/knx"
+	"github.com/vapourismo/knx-go/knx/cemi"
 	"github.com/vapourismo/knx-go/knx/knxnet"
 	"github.com/vapourismo/knx-go/verifmc/mc"
 	"verifh/harness/fakesock"
@@ -52,6 +53,7 @@ type c03Params struct {
 	lossOnly    bool // menu reduced to {ack, lose}
 	flat        int  // flat run: that many extra Sends at the default schedule, no choices
 	ackWhatever bool
+	group       bool // send through GroupTunnel.Send (the frame is built by the group layer)
 }
 
 const c03Channel = 7
@@ -126,11 +128,12 @@ func c03Run(p c03Params) func() {
 		}
 		cfg := TCfg(p.R, p.T, 100000000)
 		cfg.UseTCP = p.tcp
-		t, err := knx.NewTunnelOnSocket(sock, knxnet.TunnelLayerData, cfg)
+		gt, err := knx.NewGroupTunnelOnSocket(sock, cfg)
 		if err != nil {
 			mc.Log(Note("connect failed: " + err.Error()))
 			return
 		}
+		t := &c03Sender{gt: &gt, group: p.group}
 		id := 0
 		if p.prefix > 0 {
 			mc.SetQuiet(true)
@@ -191,6 +194,23 @@ func c03Run(p c03Params) func() {
 		t.Close()
 	}
 }
+
+// c03Sender sends telegram number id either as a ready-made cEMI message through Tunnel.Send or as
+// a group event through GroupTunnel.Send (the id travels in the destination address either way).
+type c03Sender struct {
+	gt    *knx.GroupTunnel
+	group bool
+}
+
+func (s *c03Sender) Send(m cemi.Message) error {
+	if !s.group {
+		return s.gt.Tunnel.Send(m)
+	}
+	id := MsgID(m)
+	return s.gt.Send(knx.GroupEvent{Command: knx.GroupWrite, Source: 0x1101, Destination: cemi.GroupAddr(id), Data: []byte{byte(id & 63), byte(id)}})
+}
+
+func (s *c03Sender) Close() { s.gt.Close() }
 
 type c03Req struct {
 	id      int
@@ -546,6 +566,8 @@ func init() {
 	register("thorough", &h.Scenario{Name: "C03-S3-wrap254+3sends-F2", Prop: "C03", P: 1, F: 2, D: 1, Run: c03Run(s3b), Check: c03Oracle(s3b)})
 	fl := c03Params{R: 100, T: 350, senders: 8, perSender: 2, flat: 584}
 	register("both", &h.Scenario{Name: "C03-flat-8senders-600sends", Prop: "C03", P: 0, F: 0, D: -1, Run: c03Run(fl), Check: c03Oracle(fl)})
+	sg := c03Params{R: 100, T: 350, senders: 2, perSender: 2, menu: true, lossOnly: true, group: true}
+	register("both", &h.Scenario{Name: "C03-S2-group-tunnel-2senders-loss", Prop: "C03", P: 2, F: 2, D: 2, Run: c03Run(sg), Check: c03Oracle(sg)})
 	s5 := c03Params{R: 100, T: 350, senders: 3, perSender: 2, tcp: true}
 	register("both", &h.Scenario{Name: "C03-S5-tcp-3senders", Prop: "C03", P: 2, F: 0, D: 2, Run: c03Run(s5), Check: c03Oracle(s5)})
 }
